@@ -121,6 +121,42 @@ impl Prop for C02 {
         vec![]
     }
 
+    /// Buffer-edge sweep: a near-maximal frame whose length prefix ends 0..16 bytes before the end
+    /// of the read-ahead window (for every read-ahead factor), with everything buffered in the
+    /// carrier before the reader starts.
+    fn systematic(&self, tier: Tier) -> Vec<Value> {
+        let mut v = Vec::new();
+        let deltas: Vec<u64> = if tier == Tier::Quick { (0..=16).collect() } else { (0..=40).collect() };
+        for f in 1..=5u64 {
+            let w = f * 65_535;
+            for delta in deltas.iter() {
+                for f2 in [65_535u64, 65_528, 65_522] {
+                    // first payload byte of the last frame at `offset` within the contiguous buffer
+                    let offset = w - delta;
+                    let p1 = offset as i64 - 20 - (f as i64 - 1) * 65_537;
+                    if p1 < 1 || p1 > 65_519 {
+                        continue;
+                    }
+                    let mut writes: Vec<Value> = (0..f - 1).map(|_| json!({"size": 65_519, "flush": false})).collect();
+                    writes.push(json!({"size": p1, "flush": false}));
+                    writes.push(json!({"size": f2 - 16, "flush": false}));
+                    writes.push(json!({"size": 100, "flush": true}));
+                    v.push(json!({
+                        "property": "C02",
+                        "seed": 3000 + f * 1000 + delta * 10 + (65_535 - f2),
+                        "sched": {"kind": "fifo"},
+                        "carrier": {"max_chunk": 1 << 22, "short_write": false, "pending_pct": 0, "window": 1 << 22},
+                        "read_ahead": f,
+                        "write_buffer": 3,
+                        "ops": [{"writes": writes, "read_bufs": [65_536], "reader_delay_ms": 0}, {"writes": [], "read_bufs": [400_000], "reader_delay_ms": 2000}],
+                        "attack": Value::Null,
+                    }));
+                }
+            }
+        }
+        v
+    }
+
     fn run(&self, case: &Value, verbose: bool) -> RunOutput {
         let case = case.clone();
         let seed = case["seed"].as_u64().unwrap_or(0);
@@ -217,9 +253,14 @@ impl Prop for C02 {
                         w.dirs[wdir].writer_done = true;
                     });
                     let w3 = world.clone();
+                    let reader_delay = case["ops"][rdir]["reader_delay_ms"].as_u64().unwrap_or(0);
                     h.spawn(side + 1, "reader", async move {
                         let mut pos = 0u64;
                         let mut k = 0usize;
+                        if reader_delay > 0 {
+                            // a reader slower than the writer: the carrier fills up first
+                            tokio::time::sleep(Duration::from_millis(reader_delay)).await;
+                        }
                         loop {
                             let size = bufs[k % bufs.len()].max(1);
                             k += 1;
